@@ -275,6 +275,12 @@ def gen_cases(rng, tier):
         names = rng.sample(NAMES, rng.randint(2, 3))
         cases.append({'kind': 'step', 'proc': proc, 'names': names, 'sel': ['list', [names[0]]], 'dup': True})
         cases.append({'kind': 'step', 'proc': proc, 'names': names, 'sel': ['idx', 0], 'dup': True})
+    # systematically: selections that are not adjacent in the package (steps that treat the selection as a run of
+    # consecutive resources must refuse them or leave the resource in between alone)
+    for proc in procs:
+        names = rng.sample(NAMES, rng.randint(3, 4))
+        cases.append({'kind': 'step', 'proc': proc, 'names': names, 'sel': ['list', [names[0], names[2]]]})
+        cases.append({'kind': 'step', 'proc': proc, 'names': names, 'sel': ['list', [names[-1], names[0]]]})
     for i in range({'quick': 6, 'thorough': 40, 'search': 6}[tier]):
         names = rng.sample(NAMES, rng.randint(2, 3))
         cases.append({'kind': 'step', 'proc': 'parallelize', 'names': names, 'sel': gen_sel(rng, names)})
@@ -282,7 +288,8 @@ def gen_cases(rng, tier):
 
 
 def resources_for(names):
-    return [{'name': n, 'fields': FIELDS, 'rows': ROWS, 'pk': ['a']} for n in names]
+    # every resource has its own values, so that rows attached to the wrong resource show
+    return [{'name': n, 'fields': FIELDS, 'rows': [dict(r, b=r['b'] + 10 * i) for r in ROWS], 'pk': ['a']} for i, n in enumerate(names)]
 
 
 def canon(out):
